@@ -259,7 +259,12 @@ static SpV check_program_noise(const std::vector<std::string> &lines, int combo,
   bool crlf = rng.coin(); std::string nl = crlf ? "\r\n" : "\n";
   std::string canon, noisy; size_t pos = rng.below(lines.size() + 1); bool everywhere = rng.below(3) == 0;
   for (size_t i = 0; i <= lines.size(); i++) {
-    if (everywhere || i == pos) { int k = 1 + (int)rng.below(2); for (int j = 0; j < k; j++) noisy += std::string(NOISE[rng.below(19)]) + nl; }
+    if (everywhere || i == pos) { int k = 1 + (int)rng.below(2); for (int j = 0; j < k; j++) {
+        if (rng.below(3) == 0) { // a generated label name: any identifier, also ones that end like a register, a segment or a keyword
+          static const char *END[] = {"", "", "s", "cs", "ds", "es", "fs", "gs", "ss", "ax", "rax", "al", "word", "ptr", "far", "x", "0x1", "_", "1", "mm0", "section_", "h"};
+          std::string name; int len = (int)rng.below(10); for (int q = 0; q < len; q++) name += "abcdefghijklmnopqrstuvwxyz_ABCDEFXYZ0123456789."[q == 0 ? rng.below(27) : rng.below(47)]; name += END[rng.below(22)]; if (name.empty() || isdigit((unsigned char)name[0])) name = "L" + name;
+          static const char *AFTER[] = {"", "", " ", "\t", " ; comment", ";x"}; noisy += std::string(rng.below(4) == 0 ? "  " : "") + name + ":" + AFTER[rng.below(6)] + nl; }
+        else noisy += std::string(NOISE[rng.below(19)]) + nl; } }
     if (i < lines.size()) { canon += lines[i] + "\n"; noisy += lines[i] + nl; }
   }
   if (rng.coin() && !noisy.empty()) { // final line without terminator
